@@ -272,6 +272,9 @@ class Interp:
         q = z3.Int(f'q!{self.fresh}')
         self.pc.append(z3.And(z3.Implies(b > 0, z3.And(q * b <= a, a < q * b + b)),
                               z3.Implies(b < 0, z3.And(q * b >= a, a > q * b + b))))
+        # implied sign/size facts (redundant; they spare the NIA solver a search)
+        self.pc.append(z3.Implies(b > 0, z3.And(z3.Implies(a < 0, z3.And(q < 0, q >= a)),
+                                                z3.Implies(a >= 0, z3.And(q >= 0, q <= a)))))
         return q
 
     def bool_var(self, name):
